@@ -381,11 +381,16 @@ def unit(arg):
 
 # --- Predicates store (concrete picks over a universe of predicates) ---------
 
-def predicates_harness(n_ops, first=None):
+def predicates_harness(n_ops, first=None, wide=False):
+    '''wide: five predicates (two symbols with two arities each + Identity) and the
+    growing / assigning operations only; otherwise four predicates and every operation.'''
     from pytableaux.lang import Predicate, Predicates
 
     def universe():
-        return [Predicate(0, 0, 1), Predicate(0, 0, 2), Predicate(1, 0, 1), Predicate.Identity]
+        u = [Predicate(0, 0, 1), Predicate(0, 0, 2), Predicate(1, 0, 1), Predicate.Identity]
+        if wide:
+            u.append(Predicate(1, 0, 2))
+        return u
 
     def conflict(m, p):
         for q in m:
@@ -418,6 +423,8 @@ def predicates_harness(n_ops, first=None):
 
     OPS = ('append', 'add', 'insert', 'remove', 'discard', 'delidx', 'setidx', 'clear', 'copy', 'update',
            'setslice')
+    if wide:
+        OPS = ('append', 'insert', 'setidx', 'setslice', 'update')
 
     def fn(ex=None):
         ex = ex or SymDriver()
@@ -550,8 +557,9 @@ def predicates_harness(n_ops, first=None):
 
 
 def predicates_unit(arg):
-    n_ops, budget, first = arg
-    fn = predicates_harness(n_ops, first)
+    n_ops, budget, first = arg[:3]
+    wide = bool(arg[3]) if len(arg) > 3 else False
+    fn = predicates_harness(n_ops, first, wide)
     ex = Explorer((), max_paths=2_000_000, max_seconds=budget)
     paths = ex.run(fn)
     bad = []
@@ -560,7 +568,7 @@ def predicates_unit(arg):
             e = p.value
             bad.append(dict(kind='Predicates', error=f'{type(e).__name__}: {e}',
                             is_mismatch=isinstance(e, Mismatch), picks=list(p.picks), n_ops=n_ops,
-                            first=first,
+                            first=first, wide=wide,
                             log=[list(map(str, t)) for t in p.notes.get('log', [])], witness={}))
     samples = [dict(container='Predicates', ops=[list(map(str, t)) for t in p.notes.get('log', [])],
                     outcome=p.kind) for p in paths[-2:]]
@@ -589,6 +597,8 @@ def run(ctx):
     with mp.Pool(ctx.jobs) as pool:
         prs = [pool.apply_async(predicates_unit, ((3 if ctx.quick else 4, budget, (i, j)),))
                for i in range(4) for j in range(4)]
+        prs += [pool.apply_async(predicates_unit, ((3 if ctx.quick else 4, budget, (i, j), True),))
+                for i in range(5) for j in range(5)]
         results = pool.map(unit, units, chunksize=1)
         results += [pr.get() for pr in prs]
     paths = decisions = queries = 0
@@ -623,11 +633,11 @@ def run(ctx):
                 key, f'{r["kind"]}: after {opsig}: {b["error"]} (values {b["witness"]})',
                 dict(container=r['kind'], log=b['log'], witness=b['witness'], U=U,
                      error=b['error'], picks=b['picks'], n_ops=b['n_ops'], first=b['first'],
-                     init=b.get('init', 0)))
+                     init=b.get('init', 0), wide=b.get('wide', False)))
     rep.coverage = dict(
         states=paths, transitions=decisions, traces_validated_against_impl=replays,
         samples=samples[:6],
-        bounds=dict(initial_elements='0..2 (symbolic, possibly equal)', operations_after_init=n_ops, universe=U, predicates_universe='F/1, F/2, G/1, Identity; first operation is update([p, q])',
+        bounds=dict(initial_elements='0..2 (symbolic, possibly equal)', operations_after_init=n_ops, universe=U, predicates_universe='F/1, F/2, G/1, Identity with every operation; F/1, F/2, G/1, G/2, Identity with append/insert/setidx/setslice/update; first operation is update([p, q])',
                     slices='contiguous, start in [0,L+1], up to 2 replaced, up to 2 arriving'),
         operations=list(ALL_OPS),
         solver=dict(queries=queries, results=qres, solver_time_s=round(solver_time, 2)),
@@ -652,7 +662,7 @@ def replay(data):
     picks and witness values, plain ints, no proxies, no solver."""
     kind = data['container']
     if kind == 'Predicates':
-        fn = predicates_harness(data['n_ops'], data.get('first'))
+        fn = predicates_harness(data['n_ops'], data.get('first'), bool(data.get('wide')))
     else:
         fn, _ = harness(kind, data['first'], data['n_ops'], data['U'], data.get('init', 0))
     drv = ReplayDriver(data['picks'], data['witness'])
